@@ -18,6 +18,9 @@ def build_registry() -> Registry:
             continue
         mod = importlib.import_module(f"{__name__}.{m.name}")
         mod.declare(reg)
+    from . import mbox_c
+
+    mbox_c.declare_recovery(reg)
     from ._props import PROPS
 
     for pid, info in PROPS.items():
